@@ -100,7 +100,7 @@ func vfExchange(u upstream.Upstream, ctx context.Context, id uint16, name string
 }
 
 func TestVfC14Faults(t *testing.T) {
-	st := vfkit.Stats("TestVfC14Faults", "fault placements per transport (udp, tcp, tcp+pipeline, tls, tls+pipeline, https, h3, quic): on the first query of a fresh or a warmed-up (pooled) connection the scripted server does one of {silence, half length prefix, half body then stall, half body then FIN, garbage frame, wrong ID, FIN before reply, RST, HTTP 500, refuse (closed port), never completes the TLS/QUIC handshake}; exchanges carry deadlines of 150-600 ms; oracle: every exchange returns by deadline + 2 s; non-trivial = any fault other than refuse")
+	st := vfkit.Stats("TestVfC14Faults", "fault placements per transport (udp, tcp, tcp+pipeline, tls, tls+pipeline, https, h3, quic): on the first query of a fresh or a warmed-up (pooled) connection the scripted server does one of {silence, half length prefix, half body then stall, half body then FIN, garbage frame, wrong ID, FIN before reply, RST, HTTP 500, HTTP 200 with half of the announced body then nothing, refuse (closed port), never completes the TLS/QUIC handshake}; exchanges carry deadlines of 150-600 ms; oracle: every exchange returns by deadline + 2 s; non-trivial = any fault other than refuse")
 	defer vfkit.Flush()
 	_, leaf := vfTLSMaterial()
 	seq := 0
@@ -112,7 +112,7 @@ func TestVfC14Faults(t *testing.T) {
 			faults = append(faults, "half-prefix", "half-body-stall", "half-body-fin", "rst")
 		}
 		if kind == "https" || kind == "h3" {
-			faults = append(faults, "http-500")
+			faults = append(faults, "http-500", "http-body-stall")
 		}
 		fault := rapid.SampledFrom(faults).Draw(t, "fault")
 		warm := rapid.Bool().Draw(t, "warmPooledConnection")
@@ -146,6 +146,8 @@ func TestVfC14Faults(t *testing.T) {
 				return vfkit.UpAction{Reply: ok, RawStream: f[:len(f)/2], CloseAfter: true}
 			case "http-500":
 				return vfkit.UpAction{Reply: ok, HTTPStatus: 500}
+			case "http-body-stall":
+				return vfkit.UpAction{Reply: ok, HTTPStall: true}
 			}
 			return vfkit.UpAction{} // silence
 		}
@@ -466,6 +468,99 @@ func TestVfC14Saturated(t *testing.T) {
 		}
 		st.Case(vfkit.Fingerprint(kind, b, credit, deadline), nontrivial, []string{"kind=" + kind, fmt.Sprintf("credit=%d", credit)}, func() any {
 			return map[string]any{"kind": kind, "blockers": b, "credit": credit, "deadline_ms": deadline.Milliseconds(), "probe_took_ms": took.Milliseconds(), "probe_ok": ok}
+		})
+	})
+}
+
+// TestVfC14WriteStall: a server that stops reading. Queries of 60 KiB keep being written until the socket buffers of
+// the shared (or each) connection are full and the writes block; every exchange must still end by its own deadline.
+func TestVfC14WriteStall(t *testing.T) {
+	st := vfkit.Stats("TestVfC14WriteStall", "stream transports (tcp, tcp+pipeline, tls, tls+pipeline): after a warm-up exchange the server stops reading; 20-160 exchanges with 60 KiB queries and 0.5-1.5 s deadlines are started (several MiB on one pipelined connection: its send path blocks), then a small probe with a 100-400 ms deadline; oracle: every exchange returns by its deadline + 1.2 s, and after the server resumes reading a new exchange is answered within 3 s; non-trivial = pipelined kind with >= 60 big queries")
+	defer vfkit.Flush()
+	_, leaf := vfTLSMaterial()
+	rapid.Check(t, func(t *rapid.T) {
+		kind := rapid.SampledFrom([]string{"tcp", "tcp+pipeline", "tls", "tls+pipeline"}).Draw(t, "kind")
+		n := rapid.SampledFrom([]int{20, 160, 600, 1200}).Draw(t, "bigQueries")
+		bigDeadline := time.Duration(rapid.IntRange(500, 1500).Draw(t, "bigDeadlineMs")) * time.Millisecond
+		probeDeadline := time.Duration(rapid.IntRange(100, 400).Draw(t, "probeDeadlineMs")) * time.Millisecond
+		srv, err := vfkit.StartUpstream(kind, "w", "127.0.0.1", 0, vfkit.ServerTLS(leaf), func(q *vfkit.UpQuery) vfkit.UpAction {
+			return vfkit.UpAction{Reply: vfOKReply(q)}
+		})
+		if err != nil {
+			t.Fatalf("fake server: %v", err)
+		}
+		defer srv.Close()
+		u := vfNewUpstream(t, kind, srv.Port, 0)
+		defer func() {
+			srv.StopReading.Store(false)
+			if !vfClose(u) {
+				t.Fatalf("%s upstream: Close did not return within 3 s", kind)
+			}
+		}()
+		ctx0, c0 := context.WithTimeout(context.Background(), 3*time.Second)
+		if ok, err, _ := vfExchange(u, ctx0, 1, "warm.c14"); !ok {
+			c0()
+			t.Fatalf("%s: warm-up failed: %v", kind, err)
+		}
+		c0()
+		srv.StopReading.Store(true)
+		big := func(id uint16) []byte {
+			m := &vfkit.Msg{ID: id, Bits: vfkit.BitRD, Q: []vfkit.Question{{Name: vfkit.Name{[]byte(fmt.Sprintf("big%d", id)), []byte("c14")}, Type: 1, Class: 1}},
+				Ar: []vfkit.RR{{Type: 65280, Class: 1, RData: []vfkit.RDPart{{Raw: make([]byte, 60000)}}}}}
+			w, _ := vfkit.Encode(m, vfkit.EncOpts{})
+			return w
+		}
+		type res struct {
+			took time.Duration
+			err  error
+		}
+		results := make(chan res, n)
+		for i := 0; i < n; i++ {
+			go func(i int) {
+				ctx, cancel := context.WithTimeout(context.Background(), bigDeadline)
+				defer cancel()
+				start := time.Now()
+				m, err := u.ExchangeContext(ctx, big(uint16(100+i)))
+				if m != nil {
+					dnsmsg.ReleaseMsg(m)
+				}
+				results <- res{time.Since(start), err}
+			}(i)
+		}
+		time.Sleep(time.Duration(rapid.IntRange(0, 200).Draw(t, "probeAfterMs")) * time.Millisecond)
+		ctx, cancel := context.WithTimeout(context.Background(), probeDeadline)
+		ok, exErr, took := vfExchange(u, ctx, 7, "probe.c14")
+		cancel()
+		if took > probeDeadline+1200*time.Millisecond {
+			t.Fatalf("%s upstream whose server stopped reading (%d queries of 60 KiB backed up): the probe with a %v deadline returned after %v (ok=%v err=%v)", kind, n, probeDeadline, took, ok, exErr)
+		}
+		for i := 0; i < n; i++ {
+			select {
+			case r := <-results:
+				if r.took > bigDeadline+1200*time.Millisecond {
+					t.Fatalf("%s upstream whose server stopped reading: an exchange with a %v deadline returned after %v (%v)", kind, bigDeadline, r.took, r.err)
+				}
+			case <-time.After(bigDeadline + 4*time.Second):
+				t.Fatalf("%s upstream whose server stopped reading: %d of %d exchanges never returned (deadline %v)", kind, n-i, n, bigDeadline)
+			}
+		}
+		srv.StopReading.Store(false)
+		var ok2 bool
+		var err2 error
+		for until := time.Now().Add(3 * time.Second); ; {
+			ctx2, c2 := context.WithTimeout(context.Background(), 2*time.Second)
+			ok2, err2, _ = vfExchange(u, ctx2, 9, "after.c14")
+			c2()
+			if ok2 || time.Now().After(until) {
+				break
+			}
+			time.Sleep(20 * time.Millisecond)
+		}
+		if !ok2 {
+			t.Fatalf("%s: no exchange succeeded within 3 s after the server resumed reading: %v", kind, err2)
+		}
+		st.Case(vfkit.Fingerprint(kind, n, bigDeadline, probeDeadline), strings.Contains(kind, "pipeline") && n >= 60, []string{"kind=" + kind}, func() any {
+			return map[string]any{"kind": kind, "big_queries": n, "probe_took_ms": took.Milliseconds(), "probe_ok": ok}
 		})
 	})
 }
